@@ -21,7 +21,7 @@ type C15Case struct {
 }
 
 var c15Kinds = []string{"absent", "present-valid", "present-garbage", "unwritable-EACCES", "unwritable-EROFS",
-	"dir-at-output", "log-unwritable", "log-is-dir", "mid-write", "stat-src-error", "open-EMFILE", "commit-error", "output-links-to-setup"}
+	"dir-at-output", "log-unwritable", "log-is-dir", "mid-write", "stat-src-error", "open-EMFILE", "commit-error", "output-links-to-setup", "stdout-unwritable"}
 
 var outVariants = []string{"same-dir", "subdir", "other-pkg", "outside", "parent-missing", "abs-same-dir", "dotdot-outside"}
 
@@ -87,6 +87,7 @@ func genC15(cfg Config, ws *WorldSet, i, perWorld int) C15Case {
 		iv.OutPath = ResolveOut(filepath.Dir(setup), filepath.Base(setup), "", "")
 	}
 	c := C15Case{World: world}
+	stdoutMode := ""
 	steps := []Step{{Op: "symlink", Path: "{W}/elsewhere/modlink", Data: []byte("{W}/mod")}, {Op: "write", Path: "{W}/elsewhere/outside/keep.txt", Data: []byte("a directory that a lexically collapsed ../outside would name\n")}}
 	plan := &sim.Plan{Markers: genMarkers(r, 4)}
 	base := strings.SplitN(kind, "/", 2)[0]
@@ -138,6 +139,14 @@ func genC15(cfg Config, ws *WorldSet, i, perWorld int) C15Case {
 			present()
 			k := sim.Pick(r, []int{0, 1, 17, 64, 200, 1000, -1})
 			plan.Faults = append(plan.Faults, sim.Fault{Op: "OUTPUT-OPEN", Path: iv.OutPath, Kind: "short_write", Errno: sim.Pick(r, []string{"ENOSPC", "EIO", "EFBIG", "EDQUOT"}), K: k})
+		case "stdout-unwritable":
+			// the other stream a run writes to: stdout full (ENOSPC) or not open for
+			// writing (EBADF). Whether the run then fails is its business; if it does,
+			// the output path must be as it was
+			if r.Bool() {
+				present()
+			}
+			stdoutMode = sim.Pick(r, []string{"full", "readonly"})
 		case "commit-error":
 			// only reachable if the tree moves a file onto the output path (it does
 			// not today: then this is a plain fault-free case)
@@ -161,7 +170,7 @@ func genC15(cfg Config, ws *WorldSet, i, perWorld int) C15Case {
 			bin = "plain"
 		}
 	}
-	run := Step{Op: "run", Inv: &iv, Bin: bin, GMP: sim.Pick(r, []int{0, 1, 2, 4}), HomeRel: "home"}
+	run := Step{Op: "run", Inv: &iv, Bin: bin, GMP: sim.Pick(r, []int{0, 1, 2, 4}), HomeRel: "home", Stdout: stdoutMode}
 	if bin == "sim" {
 		run.Plan = plan
 	}
@@ -261,10 +270,14 @@ func execC15(env *sim.Env, c C15Case) CaseResult {
 	if len(r.Pre.Diff(r.Post)) > 0 {
 		st.Inc("n:runs_that_changed_the_tree")
 	}
-	for _, f := range r.Obs.Fired {
-		if strings.HasSuffix(f, ":open_err") && !strings.HasPrefix(f, "OpenFile:") {
+	for _, t := range r.Obs.Trace {
+		// an injected open error on the output (or a temporary sibling of it), whatever call made it
+		if t.Fault == "open_err" && filepath.Dir(t.Path) == filepath.Dir(run.Inv.OutPath) && !strings.HasSuffix(t.Path, ".log") {
 			st.Inc("n:output_open_faults_fired")
 		}
+	}
+	if run.Stdout != "" {
+		st.Inc("fired:stdout:" + run.Stdout)
 	}
 	if run.Inv.Dry || outcome == "fail" {
 		st.Inc("n:must_not_touch_output")
